@@ -182,7 +182,11 @@ def gen_random(rng, n, maxlen):
 
 
 def gen_soak(rng, n, big):
-    cases = []
+    # a few heavily contended ones first (8-12 producers released together on an unbounded queue: a lost update of a
+    # counter needs two increments to overlap)
+    cases = ["QS u %d %d %d" % (np, ne, rng.randint(1, 10 ** 6)) for np, ne in ((8, 4000), (12, 2500), (4, 8000), (8, 4000))]
+    if big:
+        cases += ["QS u %d %d %d" % (rng.choice([4, 8, 16]), 20000, rng.randint(1, 10 ** 6)) for _ in range(20)]
     for _ in range(n):
         cap = rng.choice(["u", "u", "0", "1", "2", "8", "64"])
         cases.append("QS %s %d %d %d" % (cap, rng.choice([2, 3, 4, 8]), rng.choice([200, 1000] if big else [50, 200]),
